@@ -137,7 +137,7 @@ impl Property for C11 {
     fn budget(&self, tier: Tier) -> Budget {
         match tier {
             Tier::Quick => Budget { cases: 40000, min_len: 8, max_len: 160 },
-            Tier::Thorough => Budget { cases: 2000000, min_len: 8, max_len: 200 },
+            Tier::Thorough => Budget { cases: 1200000, min_len: 8, max_len: 200 },
         }
     }
 
